@@ -34,7 +34,8 @@ PATHS = ["ctor", "dict", "json", "aoef"]
 RULE = ("every case of the TLA+ enumeration -- clip evaluations: 0..2 annotations x 0..2 predictions x match lists over "
         "(none | p1 | p2 | foreign) x (none | a1 | a2 | foreign), also with annotations / predictions that wrap one and the same "
         "sound event (a1 and a2, a foreign annotation and a1, all three) and with predictions that carry the uuid of an "
-        "annotation x clip pairing (same object, equal copy, later-enriched copies of the same uuid, other clip, other "
+        "annotation and with sound_events lists that hold an event twice (same object / equal copy) x clip pairing (same object, equal "
+        "copy, later-enriched copies of the same uuid, another clip over the same span, other clip, other "
         "recording); single matches; annotation projects: every ordered selection of 3 clips as tasks x every sequence of <= 3 annotated clips (any order, a clip annotated twice) x later-enriched copies of a clip on the task / annotation side; clips: 5 x 5 start/end "
         "values x number encodings (numbers, numeric strings, mixed) x 2 units; scores: 10 values around 0 and 1 (+ absent) x "
         "6 bounded fields (+ Evaluation.score, observed only) x number/string -- each built through 4 paths; "
@@ -146,6 +147,8 @@ def _pairing_clips(pairing):
         return a, _clip(CLIP_ID["A"], enriched=1)
     if pairing == "copy_rec_tag":
         return a, _clip(CLIP_ID["A"], enriched=2)
+    if pairing == "twin":                 # another clip (another uuid) over the very same span of the same recording
+        return a, _clip(CLIP_ID["B"])
     if pairing == "diff_times":
         return a, _clip(CLIP_ID["B"], start=20.0, end=30.0)
     if pairing == "diff_rec":
@@ -169,11 +172,22 @@ def _ce(case):
     na, np_, ms, pairing = case["na"], case["np"], case["ms"], case["pairing"]
     ase, pse = case.get("ase"), case.get("pse")        # which sound event each annotation / prediction wraps
     pu = case.get("pu")                                # predictions that carry the uuid of an annotation
+    # the sound_events lists as written: annotation / prediction numbers in listed order; a number may occur twice
+    # (rc False: the very same object is listed twice; True: an equal copy of it)
+    al = case.get("al", list(range(1, na + 1)))
+    pl = case.get("pl", list(range(1, np_ + 1)))
+    rc = case.get("rc", False)
+
+    def listed(numbers, make):
+        if rc:                                         # every entry built separately: repeats are equal copies
+            return [make(k) for k in numbers]
+        made = {}
+        return [made.setdefault(k, make(k)) for k in numbers]      # repeats are the very same object
 
     def parts():
         ca_clip, cp_clip = _pairing_clips(pairing)
-        ca = data.ClipAnnotation(uuid=U(0x60), clip=ca_clip, sound_events=[_ann(k, ase) for k in range(1, na + 1)], created_on=T0)
-        cp = data.ClipPrediction(uuid=U(0x61), clip=cp_clip, sound_events=[_pred(k, pse, pu) for k in range(1, np_ + 1)])
+        ca = data.ClipAnnotation(uuid=U(0x60), clip=ca_clip, sound_events=listed(al, lambda k: _ann(k, ase)), created_on=T0)
+        cp = data.ClipPrediction(uuid=U(0x61), clip=cp_clip, sound_events=listed(pl, lambda k: _pred(k, pse, pu)))
         return ca, cp
 
     def ctor():
@@ -210,6 +224,9 @@ def _ce(case):
         elif pairing == "copy_rec_tag":
             recs.append(dict(REC_DOC, tags=[0]))
             clips.append(dict(clipA))
+        elif pairing == "twin":
+            clips.append(dict(clipA, uuid=str(U(CLIP_ID["B"]))))
+            pred_clip = str(U(CLIP_ID["B"]))
         elif pairing == "diff_times":
             clips.append({"uuid": str(U(CLIP_ID["B"])), "recording": str(U(1)), "start_time": 20.0, "end_time": 30.0})
             pred_clip = str(U(CLIP_ID["B"]))
@@ -225,11 +242,11 @@ def _ce(case):
             "sound_event_annotations": [{"uuid": str(U(ANN_ID + k)), "sound_event": str(U(SE_ID + _wrapped(ase, k))), "created_on": T0S}
                                         for k in range(1, K + 1)],
             "clip_annotations": [{"uuid": str(U(0x60)), "clip": str(U(CLIP_ID["A"])), "created_on": T0S,
-                                  "sound_events": [str(U(ANN_ID + k)) for k in range(1, na + 1)]}],
+                                  "sound_events": [str(U(ANN_ID + k)) for k in al]}],
             "sound_event_predictions": [{"uuid": str(_pred_uuid(k, pu)), "sound_event": str(U(SE_ID + K + _wrapped(pse, k))), "score": 0.5}
                                         for k in range(1, K + 1)],
             "clip_predictions": [{"uuid": str(U(0x61)), "clip": pred_clip,
-                                  "sound_events": [str(_pred_uuid(k, pu)) for k in range(1, np_ + 1)]}],
+                                  "sound_events": [str(_pred_uuid(k, pu)) for k in pl]}],
             "matches": [dict({"uuid": str(U(MATCH_ID + i)), "affinity": 0.5},
                              **({"source": str(_pred_uuid(s, pu))} if s else {}),
                              **({"target": str(U(ANN_ID + t))} if t else {})) for i, (s, t) in enumerate(ms)],
@@ -581,7 +598,7 @@ def random_cases(rng, tier):
             elif ms:
                 i = rng.randrange(len(ms))
                 ms[i] = [ms[i][0], 0] if ms[i][0] else [0, ms[i][1]]           # one side dropped (no-op if one-sided)
-        pairing = rng.choice(["same", "same", "copy", "copy_features", "copy_rec_tag", "diff_times", "diff_rec"])
+        pairing = rng.choice(["same", "same", "same", "copy", "copy_features", "copy_rec_tag", "twin", "diff_times", "diff_rec"])
         ase, pse = list(range(1, K + 1)), list(range(1, K + 1))
         for wrap in (ase, pse):                                  # some annotations / predictions share a sound event
             for _ in range(rng.choice([0, 0, 1, 2])):
@@ -591,7 +608,12 @@ def random_cases(rng, tier):
             pu[rng.randrange(K)] = j
         if len({j for j in pu if j}) < len([j for j in pu if j]):
             pu = [0] * K                                         # two predictions must not share one uuid
-        yield {"kind": "ce", "na": na, "np": np_, "ms": ms[:9], "pairing": pairing, "ase": ase, "pse": pse, "pu": pu}
+        al, pl = list(range(1, na + 1)), list(range(1, np_ + 1))
+        for lst in (al, pl):                                     # a list that holds one of its events twice
+            if lst and rng.random() < 0.25:
+                lst.insert(rng.randrange(len(lst) + 1), rng.choice(lst))
+        yield {"kind": "ce", "na": na, "np": np_, "ms": ms[:9], "pairing": pairing, "ase": ase, "pse": pse, "pu": pu,
+               "al": al, "pl": pl, "rc": rng.random() < 0.5}
 
 
 def finding_key(obs, clause):
